@@ -254,11 +254,16 @@ def jobs(L, timeout):
     mk('seekg', b, ['UncompressedFile::seekg'], len(asserts))
     # ---------------- dropOldData
     b = '''    UncompressedFile_dropOldData(&u);
-    _Bool may = k > 0 && END(0) <= o.m_tellg && END(0) <= o.m_tellp && END(0) <= o.m_fileSize;
+    int64_t lim = o.m_tellg < o.m_tellp ? o.m_tellg : o.m_tellp; if (o.m_fileSize < lim) lim = o.m_fileSize;
+    /* h = number of leading containers that lie wholly behind tellg, tellp and the declared end */
+    unsigned h = 0; _Bool read_ok = 1;
+    for (int i = 0; i < VB_L; i++) { if (i < k && h == (unsigned)i && END(i) <= lim) h = i + 1; }
+    for (int i = 0; i < VB_L; i++) { if ((size_t)i < u.m_data.head && !(END(i) <= o.m_tellg)) read_ok = 0; }
 '''
     asserts = [
-        ('dropOldData/pops-the-front-container-iff-it-lies-wholly-behind-tellg-tellp-and-declared-end', 'u.m_data.head == (may ? 1u : 0u) && u.m_data.tail == o.m_data.tail'),
-        ('dropOldData/never-discards-a-byte-that-has-not-been-read', 'u.m_data.head == 0 || END(0) <= o.m_tellg'),
+        ('dropOldData/drops-exactly-the-leading-containers-that-lie-wholly-behind-tellg-tellp-and-declared-end', 'u.m_data.head == h && u.m_data.tail == o.m_data.tail'),
+        ('dropOldData/leaves-no-held-container-that-lies-wholly-behind-(an-object-may-span-several)', 'u.m_data.head == u.m_data.tail || (u.m_data.head < VB_L && END(u.m_data.head) > lim)'),
+        ('dropOldData/never-discards-a-byte-that-has-not-been-read', 'read_ok'),
         ('dropOldData/frame', same_containers() + ' && u.m_tellg == o.m_tellg && u.m_tellp == o.m_tellp && u.m_fileSize == o.m_fileSize && u.m_rdstate == o.m_rdstate && u.m_gcount == o.m_gcount && u.m_abort == o.m_abort'),
     ]
     for l, c_ in asserts: b += A(l, c_)
